@@ -25,7 +25,7 @@ NAME = "ompsim"
 PROPERTY = "C15"
 TIERS = {"quick": (15000, 90.0), "thorough": (400000, 1800.0)}
 CHANGE_KINDS = set()
-OBSERVE_KINDS = {"run", "pipeline", "wrapper"}
+OBSERVE_KINDS = {"run", "pipeline", "wrapper", "vario_dirs", "ompbuild"}
 RULE = ("one run = 2-6 ops, each one simulated execution of a kernel (summate, "
         "summate_incompr, summate_fourier, calc_field_krige, calc_field_krige_and_variance, "
         "unstructured [euclid / haversine], directional, structured, ma_structured; matheron / "
@@ -306,7 +306,7 @@ def is_nontrivial(ops):
             continue
         if o.get("op") == "run" and (o["team"] is None or o["team"] >= 2) and o["size"]["n"] >= 2:
             return True
-        if o.get("op") in ("wrapper", "pipeline", "ompbuild"):
+        if o.get("op") in ("wrapper", "pipeline", "ompbuild", "vario_dirs"):
             return True
     return False
 
@@ -318,6 +318,8 @@ def history_sig(op):
                                             s["dim"], s["n"], s["m"])
     if op.get("op") == "ompbuild":
         return "ompbuild:%s" % op["kernel"]
+    if op.get("op") == "vario_dirs":
+        return "vario_dirs:%d:%d:%s" % (op["dim"], len(op["angles_deg"]), op["tol_deg"])
     if op.get("op") == "wrapper":
         s = op["size"]
         return "wrapper:%s:%d:%d:%d:%s" % (op["kernel"], s["dim"], min(s["n"], 50) // 5,
@@ -335,6 +337,14 @@ class Machine:
         if big:
             n = rng.choice([0, 1, 2, 7, 50, 300, 2000])
             m = rng.choice([1, 2, 7, 40, 200, 1000])
+            if rng.random() < 0.35:
+                # sizes around powers of two (block / chunk boundaries) and odd sizes
+                base = rng.choice([64, 128, 256, 512, 1024, 2048, 4096])
+                n = base * rng.choice([1, 1, 2, 3]) + rng.choice([-1, 0, 1])
+                m = rng.choice([1, 2, 5])
+            elif rng.random() < 0.2:
+                n = rng.randint(3, 5000)
+                m = rng.choice([1, 3])
             if kernel in ("unstructured", "directional"):
                 n = rng.choice([1, 2, 7, 40, 150])
                 m = rng.choice([1, 2, 5, 12])
@@ -371,6 +381,14 @@ class Machine:
             size["m"] = min(size["m"], 30 if KERNELS[kernel] == "estimator" else 200)
             return {"op": "ompbuild", "kernel": kernel, "size": size,
                     "vseed": rng.randint(0, 2 ** 31), "reps": rng.choice([2, 5, 10])}
+        if r > 0.93:
+            return {"op": "vario_dirs", "dim": rng.choice([2, 2, 3]), "n": rng.randint(4, 25),
+                    "bins": rng.randint(1, 4), "vseed": rng.randint(0, 2 ** 31),
+                    "angles_deg": [rng.choice([0, 10, 25, 45, 80, 90, 100, 135, 170])
+                                   for _ in range(rng.randint(1, 4))],
+                    "tol_deg": rng.choice([5, 10, 20, 22.5, 40]),
+                    "bw": rng.choice([None, None, 1.5]), "est": rng.choice(["matheron",
+                                                                            "cressie"])}
         if r < 0.6:
             return {"op": "run", "kernel": kernel, "size": self._size(rng, kernel),
                     "vseed": rng.randint(0, 2 ** 31), "team": rng.choice(TEAMS),
@@ -392,6 +410,8 @@ class Machine:
         k = op["op"]
         if k == "ompbuild":
             return self._ompbuild(op)
+        if k == "vario_dirs":
+            return self._vario_dirs(op)
         if k == "run":
             return self._run(op)
         if k == "wrapper":
@@ -484,6 +504,63 @@ class Machine:
                                         maxdiff=maxdiff(a, b), size=op["size"])
         self.ctx.note("ompbuild:" + kernel, *[np.asarray(r) for r in ref])
 
+    def _wrapper_call(self, kernel, args, kw):
+        from gstools.field import generator as G
+        from gstools.krige import base as K
+        from gstools.variogram import variogram as V
+        est = kw.get("estimator_type", "m")
+        fns = {
+            "summate": lambda nt: G._summate(*args, num_threads=nt),
+            "summate_incompr": lambda nt: G._summate_incompr(*args, num_threads=nt),
+            "summate_fourier": lambda nt: G._summate_fourier(*args, num_threads=nt),
+            "calc_field_krige": lambda nt: K._calc_field_krige(*args, num_threads=nt),
+            "calc_field_krige_and_variance":
+                lambda nt: K._calc_field_krige_and_variance(*args, num_threads=nt),
+            "unstructured": lambda nt: V._unstructured(
+                *args, estimator_type=est, distance_type=kw.get("distance_type", "e"),
+                num_threads=nt),
+            "directional": lambda nt: V._directional(
+                *args, angles_tol=kw.get("angles_tol"), bandwidth=kw.get("bandwidth"),
+                separate_dirs=kw.get("separate_dirs"), estimator_type=est, num_threads=nt),
+            "structured": lambda nt: V._structured(*args, estimator_type=est, num_threads=nt),
+            "ma_structured": lambda nt: V._ma_structured(*args, estimator_type=est,
+                                                         num_threads=nt),
+        }
+        return fns[kernel]
+
+    # -- public estimator with several directions == defining sums (every direction counts
+    #    all pairs inside its own cone; `separate_dirs` is only an optimisation)
+    def _vario_dirs(self, op):
+        import gstools as gs
+        rs = random.Random(op["vseed"])
+        dim = op["dim"]
+        n = op["n"]
+        pos = _vals(rs, (dim, n), -3, 3)
+        f = _vals(rs, (1, n))
+        edges = np.linspace(0.0, 7.0, op["bins"] + 1)
+        ang = [a for a in op["angles_deg"]]
+        if dim == 2:
+            dirs = np.array([[math.cos(math.radians(a)), math.sin(math.radians(a))]
+                             for a in ang])
+        else:
+            dirs = np.array([[math.cos(math.radians(a)), math.sin(math.radians(a)),
+                              0.3 * ((i % 3) - 1)] for i, a in enumerate(ang)])
+            dirs /= np.linalg.norm(dirs, axis=1)[:, None]
+        tol = math.radians(op["tol_deg"])
+        bw = op.get("bw")
+        res = gs.vario_estimate(pos, f[0], bin_edges=edges, direction=dirs, angles_tol=tol,
+                                bandwidth=bw, return_counts=True, estimator=op["est"])
+        kw = {"angles_tol": tol, "bandwidth": -1.0 if bw is None else bw,
+              "separate_dirs": False, "estimator_type": op["est"][0]}
+        ref = defining("directional", [f, edges, pos, dirs], kw)
+        self.ctx.observations += 1
+        self.ctx.probe("wrapper.vario_estimate_directions")
+        got_v, got_c = np.atleast_2d(res[1]), np.atleast_2d(res[2])
+        if not np.array_equal(got_c, ref[1]) or not close(got_v, ref[0], rtol=1e-10):
+            raise Violation("C15.defining_sums.vario_estimate_directional",
+                            angles_deg=ang, tol_deg=op["tol_deg"], counts=got_c.tolist(),
+                            want=ref[1].tolist())
+
     # -- (d)
     def _wrapper(self, op):
         kernel = op["kernel"]
@@ -520,6 +597,19 @@ class Machine:
                 raise Inapplicable("rejected shapes")
             raise Violation("C15.wrapper_raised." + kernel, error=str(e)[:100])
         got = got if isinstance(got, tuple) else (got,)
+        # the wrapper's result must be bit-identical for every thread count
+        call = self._wrapper_call(kernel, args, kw)
+        rs = random.Random(op["vseed"] ^ 0x5bd1)
+        for nt2 in sorted({1, rs.choice([None, 2, 3, 4, 8, 16]), 16}, key=str):
+            if nt2 == nt:
+                continue
+            other = call(nt2)
+            other = other if isinstance(other, tuple) else (other,)
+            for a, b in zip(got, other):
+                if not np.array_equal(np.asarray(a), np.asarray(b), equal_nan=True):
+                    raise Violation("C15.thread_count_dependent." + kernel, threads=[nt, nt2],
+                                    maxdiff=maxdiff(a, b), size=op["size"])
+            self.ctx.probe("wrapper.thread_counts_compared")
         with np.errstate(all="ignore"):
             ref = defining(kernel, args, kw)
         self.ctx.observations += 1
